@@ -153,7 +153,18 @@ func (a *archiveReconciler) archiveAllLaterRevisions(
 func (a *archiveReconciler) intermediateRevisionCanBeArchived(
 	ctx context.Context, previousRevision, currentLatestRevision adapters.ObjectSetAccessor,
 ) (bool, error) {
-	latestRevisionObjects, err := newObjectSetGetter(currentLatestRevision).getObjects()
+	// The objects of the latest revision include those living in ObjectSlices:
+	// the previous revision may still actively reconcile one of them.
+	var (
+		latestRevisionObjects []objectIdentifier
+		err                   error
+	)
+	latestRevisionGetter := newObjectSetGetter(currentLatestRevision)
+	if sliceAwareGetter, ok := latestRevisionGetter.(sliceAwareObjectSetGetter); ok {
+		latestRevisionObjects, err = sliceAwareGetter.getObjectsIncludingSlices(ctx, a.client)
+	} else {
+		latestRevisionObjects, err = latestRevisionGetter.getObjects()
+	}
 	if err != nil {
 		return false, err
 	}
